@@ -32,6 +32,8 @@ enum MOp {
     Checked(i16),
     Wide(u8, i64, u32, String, u32, String),
     Bump(u64),
+    /// a method taking one fd plus a list of n fds and returning them in the other order
+    SwapFds(u8),
     GetLabel,
     SetLabel(String),
     GetLevel,
@@ -107,6 +109,21 @@ fn describe_value(k: u8) -> zvariant::Value<'static> {
     }
 }
 
+/// Tags of the fds an fd-swapping call sends: (who, op index, k).
+fn fd_tags(who: u64, idx: usize, n: u8) -> Vec<u64> {
+    (0..=n as u64).map(|k| 0xC33_0000 + who * 0x1000 + (idx as u64) * 16 + k).collect()
+}
+fn render_fds(r: zbus::Result<(Vec<zvariant::OwnedFd>, zvariant::OwnedFd)>) -> String {
+    use std::os::fd::AsFd;
+    match r {
+        Ok((rest, first)) => format!("Ok({:x?}, {:x})", rest.iter().map(|f| crate::net::fd_tag(f.as_fd())).collect::<Vec<_>>(), crate::net::fd_tag(first.as_fd())),
+        Err(_) => "Err".into(),
+    }
+}
+fn want_fds(tags: &[u64]) -> String {
+    format!("Ok({:x?}, {:x})", &tags[1..], tags[0])
+}
+
 fn render<T: std::fmt::Debug>(r: zbus::Result<T>) -> String {
     match r {
         Ok(v) => format!("Ok({v:?})"),
@@ -116,7 +133,7 @@ fn render<T: std::fmt::Debug>(r: zbus::Result<T>) -> String {
 
 fn gen_op(rng: &mut Rng, stateless_only: bool, allow_set_quiet: bool) -> MOp {
     let s = |rng: &mut Rng| rng.pick(&["", "x", "hello", "zwei wörter"]).to_string();
-    let n = if stateless_only { 10 } else { 19 };
+    let n = if stateless_only { 11 } else { 20 };
     loop {
         let op = match rng.below(n) {
             0 => MOp::Add(*rng.pick(&[0, 1, -1, i32::MAX, i32::MIN, 77]), *rng.pick(&[0, 1, -1, i32::MAX, 1000])),
@@ -129,14 +146,15 @@ fn gen_op(rng: &mut Rng, stateless_only: bool, allow_set_quiet: bool) -> MOp {
             7 => MOp::Describe(rng.below(4) as u8),
             8 => MOp::Checked(*rng.pick(&[-3i16, 0, 5, 1000, 1001, i16::MAX])),
             9 => MOp::Wide(rng.below(256) as u8, *rng.pick(&[0i64, -5, i64::MAX, 1 << 33]), rng.below(100) as u32, s(rng), rng.below(1000) as u32, s(rng)),
-            10 => MOp::Bump(rng.below(1000)),
-            11 => MOp::GetLabel,
-            12 => MOp::SetLabel(s(rng)),
-            13 => MOp::GetLevel,
-            14 => MOp::SetLevel(*rng.pick(&[0u32, 5, 100, 101, 5000])),
-            15 => MOp::GetQuiet,
-            16 => MOp::SetQuiet(rng.below(60000) as u16),
-            17 => MOp::GetFixed,
+            10 => MOp::SwapFds(rng.below(4) as u8),
+            11 => MOp::Bump(rng.below(1000)),
+            12 => MOp::GetLabel,
+            13 => MOp::SetLabel(s(rng)),
+            14 => MOp::GetLevel,
+            15 => MOp::SetLevel(*rng.pick(&[0u32, 5, 100, 101, 5000])),
+            16 => MOp::GetQuiet,
+            17 => MOp::SetQuiet(rng.below(60000) as u16),
+            18 => MOp::GetFixed,
             _ => MOp::GetCounter,
         };
         if matches!(op, MOp::SetQuiet(_)) && !allow_set_quiet {
@@ -151,7 +169,7 @@ impl Scenario for C33Scn {
         "C33"
     }
     fn rule(&self) -> &'static str {
-        "over a pair of real connections the corpus interface (11 methods with integers, strings, tuples, arrays, dicts, variants, nested structs, fallible and custom-error returns; properties of every mode; one signal) is driven through its macro-generated proxies: an async proxy on a task (0..8 operations incl. property reads/writes, with or without the property cache) and a blocking proxy on a real thread parked and released by the simulator (0..5 method calls), both with seeded argument values; in addition 0..4 async and 0..3 blocking calls go through the macro-generated proxies of the 16 generated interfaces (signatures drawn from the type grammar; echo handlers; values seeded) and each result must equal what was sent (or the error the handler was asked for), each call reaching exactly its handler once; the server emits 0..3 signals once both are subscribed; oracle: every result equals a typed model of the handlers, the handler log equals the calls made (argument values included), property reads follow the writes, both signal streams yield exactly the emitted arguments in order; non-trivial = the async and the blocking client both made calls, or a property was written and read back"
+        "over a pair of real connections the corpus interface (11 methods with integers, strings, tuples, arrays, dicts, variants, nested structs, fallible and custom-error returns; properties of every mode; one signal) is driven through its macro-generated proxies: an async proxy on a task (0..8 operations incl. property reads/writes and a method that takes 1..4 file descriptors and returns them in another order, with or without the property cache) and a blocking proxy on a real thread parked and released by the simulator (0..5 method calls), both with seeded argument values; in addition 0..4 async and 0..3 blocking calls go through the macro-generated proxies of the 16 generated interfaces (signatures drawn from the type grammar; echo handlers; values seeded) and each result must equal what was sent (or the error the handler was asked for), each call reaching exactly its handler once; the server emits 0..3 signals once both are subscribed; oracle: every result equals a typed model of the handlers, the handler log equals the calls made (argument values included), property reads follow the writes, both signal streams yield exactly the emitted arguments in order; non-trivial = the async and the blocking client both made calls, or a property was written and read back"
     }
     fn runs(&self, tier: Tier) -> u64 {
         match tier {
@@ -395,6 +413,13 @@ impl Scenario for C33Scn {
                             counter = counter.wrapping_add(*by);
                             (format!("Ok({counter})"), render(px.bump(*by).await))
                         }
+                        MOp::SwapFds(n) => {
+                            let tags = fd_tags(0, i, *n);
+                            let fds: Vec<std::os::fd::OwnedFd> = tags.iter().map(|t| crate::net::make_fd(*t)).collect();
+                            use std::os::fd::AsFd;
+                            let r = px.swap_fds(zvariant::Fd::from(fds[0].as_fd()), fds[1..].iter().map(|f| zvariant::Fd::from(f.as_fd())).collect()).await;
+                            (want_fds(&tags), render_fds(r))
+                        }
                         MOp::GetLabel => (format!("Ok({label:?})"), render(px.label().await)),
                         MOp::SetLabel(v) => {
                             label = v.clone();
@@ -533,6 +558,16 @@ impl Scenario for C33Scn {
             }
             sub.lock().unwrap().1 = true;
             for (i, op) in ops.iter().enumerate() {
+                if let MOp::SwapFds(n) = op {
+                    use std::os::fd::AsFd;
+                    let tags = fd_tags(1, i, *n);
+                    let fds: Vec<std::os::fd::OwnedFd> = tags.iter().map(|t| crate::net::make_fd(*t)).collect();
+                    let got = render_fds(px.swap_fds(zvariant::Fd::from(fds[0].as_fd()), fds[1..].iter().map(|f| zvariant::Fd::from(f.as_fd())).collect()));
+                    if got != want_fds(&tags) {
+                        mm.lock().unwrap().push(format!("blocking op {i} {op:?}: expected {}, got {got}", want_fds(&tags)));
+                    }
+                    continue;
+                }
                 let Some((_, _, want)) = expect_stateless(op) else { continue };
                 let got = match op {
                     MOp::Add(a, b) => render(px.add(*a, *b)),
@@ -662,6 +697,9 @@ impl Scenario for C33Scn {
         // handler log == calls made
         let mut want_log: Vec<(String, String)> = p.async_ops.iter().chain(p.blocking_ops.iter()).filter_map(|o| expect_stateless(o).map(|(m, a, _)| (m.to_string(), a))).collect();
         want_log.extend(p.async_ops.iter().filter_map(|o| if let MOp::Bump(b) = o { Some(("Bump".to_string(), format!("{b}"))) } else { None }));
+        for (who, ops) in [(0u64, &p.async_ops), (1, &p.blocking_ops)] {
+            want_log.extend(ops.iter().enumerate().filter_map(|(i, o)| if let MOp::SwapFds(n) = o { Some(("SwapFds".to_string(), format!("{:x?}", fd_tags(who, i, *n)))) } else { None }));
+        }
         let mut got_log: Vec<(String, String)> = log_v.iter().filter(|e| e.iface == "org.sim.A").map(|e| (e.member.to_string(), e.args.clone())).collect();
         want_log.sort();
         got_log.sort();
@@ -684,6 +722,9 @@ impl Scenario for C33Scn {
         let seen = *gen_sig_seen.lock().unwrap();
         if seen != p.gen_signals.len() {
             return Verdict::fail("signal", "generated-signal-not-received", format!("{} generated signals emitted, {seen} arrived at their subscribers", p.gen_signals.len()));
+        }
+        if p.async_ops.iter().chain(p.blocking_ops.iter()).any(|o| matches!(o, MOp::SwapFds(n) if *n > 0)) {
+            w.count("probe.method_with_several_fds_called");
         }
         if !p.gen_async.is_empty() && !p.gen_blocking.is_empty() {
             w.count("probe.generated_async_and_blocking_called");
